@@ -37,21 +37,23 @@ import (
 
 // Gen generates one case; focus C10/C11/C12 selects the kind, anything else a mix.
 func Gen(r *sx.Rng, idx int, focus string) sx.Tree {
+	// the first cases and every fourth one are small, so that a failure is first met on a small case
+	small := idx < 240 || idx%4 == 0
 	switch focus {
 	case "C10":
-		return genRecv(r)
+		return genRecv(r, small)
 	case "C11":
-		return genRoute(r)
+		return genRoute(r, small)
 	case "C12":
-		return genSend(r)
+		return genSend(r, small)
 	}
 	switch idx % 3 {
 	case 0:
-		return genRecv(r)
+		return genRecv(r, small)
 	case 1:
-		return genRoute(r)
+		return genRoute(r, small)
 	}
-	return genSend(r)
+	return genSend(r, small)
 }
 
 // Run executes one case against the real code.
@@ -123,10 +125,10 @@ type consumer struct {
 	calls int
 }
 
-func (c *consumer) Subscribe(string, kafka.RebalanceCb) error    { return nil }
-func (c *consumer) Events() chan kafka.Event                     { return nil }
+func (c *consumer) Subscribe(string, kafka.RebalanceCb) error      { return nil }
+func (c *consumer) Events() chan kafka.Event                       { return nil }
 func (c *consumer) Assign(partitions []kafka.TopicPartition) error { return nil }
-func (c *consumer) Unassign() error                              { return nil }
+func (c *consumer) Unassign() error                                { return nil }
 func (c *consumer) Committed(p []kafka.TopicPartition, t int) ([]kafka.TopicPartition, error) {
 	return nil, errors.New("not scripted")
 }
@@ -271,7 +273,7 @@ func (p *party) Shutdown() error { return nil }
 type srcT struct{ party }
 
 func (s *srcT) Setup(params map[string]string, ch chan firebolt.Event) error { return s.setup(params) }
-func (s *srcT) Start() error                                                { return nil }
+func (s *srcT) Start() error                                                 { return nil }
 
 type nodeT struct{ party }
 
